@@ -113,6 +113,12 @@ static Val runFs(const Val &c, bool multi)
         else {
             out = Val::List();
             for (auto &rq : c.at(2).l) {
+                if (rq.size() == 3 && rq.at(0).k == Val::I) {       // (1 (entry..) (path..)): the file system changes
+                    for (auto &p : rq.at(2).l) QFile::remove(base + "/" + QString::fromUtf8(p.asBytes()));
+                    buildTree(base, rq.at(1));
+                    out.add(Val::List());
+                    continue;
+                }
                 if (rq.size() >= 3) {       // the document root is replaced before this request
                     QByteArray spec = rq.at(2).asBytes();
                     if (spec.startsWith("@CWD@/")) { QDir::setCurrent(base); handler.setDocumentRoot(QString::fromUtf8(spec.mid(6))); }
